@@ -311,12 +311,15 @@ impl ThreadLocalCache {
             stats.cache_misses.fetch_add(1, Ordering::Relaxed);
         }
 
-        if let Some(global_pool) = self.global_pool.upgrade() {
-            // Use the regular allocate method since we don't have bypass_cache
-            global_pool.allocate(size).and_then(|alloc| {
-                NonNull::new(alloc.as_ptr())
-                    .ok_or_else(|| ZiporaError::out_of_memory(size))
-            })
+        if self.global_pool.upgrade().is_some() {
+            // We are called with CURRENT_CACHE mutably borrowed: calling the pool's
+            // regular allocate() here would borrow it again (panic) and route the
+            // request back to this very cache. There is no allocation path that
+            // bypasses the cache and can be freed again, so refuse the request.
+            Err(ZiporaError::invalid_data(format!(
+                "request of {} bytes does not fit the thread-local arena and no global fallback is available",
+                size
+            )))
         } else {
             Err(ZiporaError::invalid_data("Global pool unavailable"))
         }
